@@ -275,6 +275,8 @@ class HttpParser:
         self._method = bits[0].upper()
 
         # URI
+        if VALUE_CTL_RE.search(bits[1]):
+            raise InvalidRequestLine('invalid character in request target')
         self._url = bits[1]
         parts = urlsplit(bits[1])
         self._scheme = parts.scheme or None
